@@ -79,8 +79,17 @@ class Opaque:
         return f'<obj {self.ident}>'
 
 
+PY_REGISTRY = {}   # rendered source -> wire PyExpr, so PyStrings built by the yaml loader encode back
+
+
 def py_src(e) -> str:
     """Render a PyExpr (wire form) to Python source; must equal Lean's PyExpr.src."""
+    s = _py_src(e)
+    PY_REGISTRY[s] = e
+    return s
+
+
+def _py_src(e) -> str:
     if 'n' in e:
         return e['n']
     if 'c' in e:
@@ -123,6 +132,8 @@ def enc(v, objs=None):
         return {'sic': v.value}
     if isinstance(v, PyString):
         e = getattr(v, '_vexpr', None)
+        if e is None:
+            e = PY_REGISTRY.get(v.value)
         if e is None:
             raise ValueError('PyString without model expression')
         return {'py': e}
